@@ -9,7 +9,7 @@ def histories_part(run):
     entry, fan-out 2 => multi-level indexes): HistoryIndependent / ZoomHistoryIndependent / CacheCoherent model-checked, every history
     replayed on ONE real reader instance and every answer judged (Obs_Reader)."""
     hb = []
-    for cfg in (["MC_Reader_t4.cfg", "MC_Reader_t5.cfg", "MC_Reader_q4.cfg"] if run.thorough else ["MC_Reader_q4.cfg", "MC_Reader_q5.cfg"]):
+    for cfg in (["MC_Reader_t4.cfg", "MC_Reader_q4.cfg", "MC_Reader_q5.cfg"] if run.thorough else ["MC_Reader_q4.cfg", "MC_Reader_q5.cfg"]):
         r = tlc("MC_Reader", cfg, os.path.join(run.wd, "mc_reader_" + cfg[-6:-4]), workers=6, timeout=3000, xmx="8g")
         tlc_must_pass(r, "Reader.tla (bigBed) HistoryIndependent/CacheCoherent (%s)" % cfg)
         run.add_tlc(cfg[:-4], r)
